@@ -130,7 +130,7 @@ def run(ctx):
         der = [e for e in evs if e.kind == 'call' and e.callee == 'mio::Poll::deregister']
         site = ctx.site(fnp)
         if r.check('register+deregister', len(reg) == 1 and len(der) == 1 and reg[0].idx < der[0].idx and S.show(reg[0].args[1]) == S.show(der[0].args[1]), site, built=[S.show(e.term)[:160] for e in reg + der]):
-            gs = [g[3] for g in der[0].guards if g[2] == 'if' and g[1] == 'then']
+            gs = ['%s%s' % ('' if p_ else '!', s_) for s_, p_ in S.lits_at(der[0]) if isinstance(p_, bool)]
             r.eq('only-while-throttled', gs, ['!self.channels_are_registered'], site, why='deregister exactly when the other channels are currently not polled')
             r.check('register-unconditional', not [g for g in reg[0].guards if g[2] == 'if'], site)
 
